@@ -153,6 +153,22 @@ fn eval(a: &[&str]) -> String {
             let r = int(a[1]).to_f32();
             format!("{:08x} {}", r.value().to_bits(), matches!(r, Approximation::Exact(_)))
         }
+        "iprim" => {
+            // conversions to the primitive integers (the wide ones are assembled word by word)
+            let x = int(a[1]);
+            let u = x.clone().unsigned_abs();
+            macro_rules! t {
+                ($t:ty) => {
+                    match <$t>::try_from(&x) {
+                        Ok(v) => format!("{v}"),
+                        Err(_) => "-".to_string(),
+                    }
+                };
+            }
+            let m = uint(a[2]);
+            let mp: u128 = u128::try_from(&m).unwrap_or(u128::MAX) | 1;
+            format!("{} {} {} {} {} {} {} {}", t!(u32), t!(i64), t!(u64), t!(i128), t!(u128), t!(usize), show_u(&(&u & mp).into()), &u % mp)
+        }
         "ilog2b" => {
             let (lb, ub) = uint(a[1]).log2_bounds();
             format!("{:08x} {:08x}", lb.to_bits(), ub.to_bits())
